@@ -219,6 +219,15 @@ def fam_C02(tier, seed):
             b.require(a, worker=w1)
             b.require(a, worker=w2)
         ps.append(b.done())
+    # two tasks with work amounts (each task's own workers must reach its own amount)
+    for (wa, wb), (pa, pb) in itertools.product([(2, 1), (3, 3), (1, 4)], [(1, 1), (2, 1)]):
+        b = PB(4, tag="work-two-tasks")
+        a = b.task("A", "V", min=0, max=4, work=wa)
+        c = b.task("B", "V", min=0, max=4, work=wb)
+        w1, w2 = b.worker("W1", prod=pa), b.worker("W2", prod=pb)
+        b.require(a, worker=w1)
+        b.require(c, worker=w2)
+        ps.append(b.done())
     # work amount on a cumulative worker
     for work, prod in itertools.product((2, 4), (2, 3)):
         b = PB(4, tag="work-cumulative")
